@@ -1094,7 +1094,11 @@ class NetlistEmitter:
                 elems.append(elem)
             conds = self.emit_match(module_idx, cond, test, tuple(patterns), src_loc=lhs.src_loc)
             for subcond, val in zip(conds, elems):
-                self.emit_assign(module_idx, cd, val, lhs_start, rhs[:len(val)], subcond, src_loc=src_loc)
+                # The assignment starts at bit `lhs_start` of the element; the part of it that falls
+                # outside of a narrow element is dropped.
+                if lhs_start >= len(val):
+                    continue
+                self.emit_assign(module_idx, cd, val, lhs_start, rhs[:len(val) - lhs_start], subcond, src_loc=src_loc)
         elif isinstance(lhs, _ast.Operator):
             assert lhs.operator in ('u', 's')
             self.emit_assign(module_idx, cd, lhs.operands[0], lhs_start, rhs, cond, src_loc=src_loc)
